@@ -254,7 +254,18 @@ impl<'a> W<'a> {
 
     fn outcome(&mut self, o: &Outcome) -> &mut Self {
         if !o.ok {
-            return self.t(if o.dirty_on_fail { "errd" } else { "err" });
+            if o.dirty_on_fail {
+                return self.t("errd");
+            }
+            if o.msgs.is_empty() {
+                return self.t("err");
+            }
+            // the handler answered but a dispatched message failed: report what it tried to send
+            self.t("errm").t(o.msgs.len());
+            for m in &o.msgs {
+                self.outmsg(m);
+            }
+            return self;
         }
         self.t("ok").t(o.msgs.len());
         for m in &o.msgs {
